@@ -68,10 +68,10 @@ Info(e) ==
   LET s == e.sys IN
   IF ~B!WellFormed(s) \/ B!AnyNear(s) THEN [sens |-> {}, sensE |-> {}, failing |-> {}, sole |-> <<>>, nbond |-> 0, nmol |-> 0]
   ELSE LET o  == B!Out(s, B!SPEC)
-           vo == [v \in B!Variants |-> B!Out(s, v)]
+           vo == TLCEval([v \in B!Variants |-> B!Out(s, v)])
            NE == B!NonEdges(s, B!SPEC)
            Bd == B!OldE(s, B!SPEC) \cup B!NameEdges(s, B!SPEC)
-           F  == [p \in B!Pairs(s) |-> B!FailingGiven(s, p, NE, Bd)]
+           F  == TLCEval([p \in B!Pairs(s) |-> B!FailingGiven(s, p, NE, Bd)])
        IN [sens    |-> {v \in B!Variants : vo[v] # o},                                   \* result differs
            sensE   |-> {v \in B!Variants : vo[v].edges # o.edges \/ vo[v].dist # o.dist},  \* bonds differ
            failing |-> IF e.focus.a > 0 THEN F[B!Norm(e.focus.a, e.focus.b)] ELSE {},
